@@ -75,6 +75,10 @@ func (s *DefaultMetricSearcher) searchOffsetAndRead(beginTimeMs uint64, doRead f
 	fileAmount := uint32(len(filenames))
 	for i := fileNo; i < fileAmount; i++ {
 		filename := filenames[i]
+		if i != fileNo {
+			// the cached index position belongs to the cached file only
+			offsetStart = 0
+		}
 		// Retrieve the start offset that is valid for given condition.
 		// If offset = -1, it indicates that current file (i) does not satisfy the condition.
 		offset, err := s.findOffsetToStart(filename, beginTimeMs, offsetStart)
@@ -98,7 +102,7 @@ func (s *DefaultMetricSearcher) getOffsetStartAndFileIdx(filenames []string, beg
 	}
 	if cacheOk {
 		for j, v := range filenames {
-			if v != s.cachedPos.metricFilename {
+			if v == s.cachedPos.metricFilename {
 				i = uint32(j)
 				offsetInIdx = s.cachedPos.curOffsetInIdx
 				break
